@@ -195,3 +195,64 @@ def type01_frames_incremental(n: int, g1: int, g2: int, g3: int, f0: int, f1: in
             except IndexError:
                 pass
         return True
+
+
+# ---------------------------------------------------------------------------------------------------- float sequences
+
+FBASE = [0.1, 1000.0, 1.7e12, -805.2105103]
+FSTRIDE = [0.1, 0.0025399999999535794, 1000.0, -0.5]
+
+
+def _jit(v, stride, j):
+    """j: 0 exact continuation, 1 one unit in the last place off, 2 relative 1e-10 off, 3 relative 1e-7 off, 4 a quarter stride off, 5 one and a half strides late."""
+    import sys
+    if j == 1:
+        return v * (1.0 + sys.float_info.epsilon)
+    if j == 2:
+        return v * (1.0 + 1e-10)
+    if j == 3:
+        return v * (1.0 - 1e-7)
+    if j == 4:
+        return v + stride * 0.25
+    if j == 5:
+        return v + stride * 1.5
+    return v
+
+
+def _rle_floats(n, b, st, j2, j3, j4):
+    """Floats come back, by position and by iteration, to within rounding (a unit in the last place of the value - the run-length encoding
+    deliberately absorbs values that close to the extrapolated one); count, first and last agree."""
+    import sys
+    base, stride = FBASE[b], FSTRIDE[st]
+    seq = [base, base + stride]
+    for i, j in zip(range(2, n), (j2, j3, j4)):
+        seq.append(_jit(base + i * stride, stride, j))
+    rle = Rle.create_rle(seq)
+    mark.hit()
+    if rle.num_values() != len(seq):
+        return False
+    eps = sys.float_info.epsilon
+    close = lambda a, b_: abs(a - b_) <= 2 * eps * max(abs(a), abs(b_))
+    vals = list(rle.values())
+    if len(vals) != len(seq):
+        return False
+    for i, want in enumerate(seq):
+        if not close(vals[i], want) or not close(rle.value(i), want) or not close(rle.value(i - len(seq)), want):
+            return False
+    return close(rle.first(), seq[0]) and close(rle.last(), seq[-1])
+
+
+def rle_floats(n: int, b: int, st: int, j2: int, j3: int, j4: int) -> bool:
+    """
+    pre: 2 <= n <= 5 and 0 <= b <= 3 and 0 <= st <= 3
+    pre: 0 <= j2 <= 5 and 0 <= j3 <= 5 and 0 <= j4 <= 5
+    pre: (n >= 3 or j2 == 0) and (n >= 4 or j3 == 0) and (n >= 5 or j4 == 0)
+    pre: PART < 0 or b * 4 + st == PART
+    post: _
+    """
+    n, b, st = mark.pick(n, 2, 5), mark.pick(b, 0, 3), mark.pick(st, 0, 3)
+    j2 = mark.pick(j2, 0, 5) if n >= 3 else 0
+    j3 = mark.pick(j3, 0, 5) if n >= 4 else 0
+    j4 = mark.pick(j4, 0, 5) if n >= 5 else 0
+    with mark.untraced():
+        return _rle_floats(n, b, st, j2, j3, j4)
